@@ -394,7 +394,8 @@ class SRC:
 
         if config.allow_plugins:
             value = self.parse(hexwords)
-            if value != '' and value != 'null':
+            # A parser that returns nothing (None) has no details to add either
+            if value and value != 'null':
                 out["SRC Details"] = json.loads(value)
 
         return out
